@@ -90,20 +90,3 @@ def source_in_domain(acc, src, with_comments=False):
             return None, None
         return c[1], info['refobj']
     return info['cnode'], info['refobj']
-
-
-def neutralise_textless_blocks(ref):
-    """known finding c02.dropsemi_before_textless_block: with drop_semi the terminator of a
-    statement is dropped when it is followed by a block statement that prints no text of its
-    own (`a;{}`, `a;{;}`, `a;{{}}`) at the end of a statement list.  Put a statement into each
-    such block.  Returns (new text, count)."""
-    from harness.findings import walk, Src
-    src = Src(ref)
-    n = 0
-    for node in walk(ref.root):
-        if node.kind == 'Block':
-            inner = ref.tokens[node.first + 1:node.last]
-            if all(k.text in ('{', '}', ';') for k in inner):
-                src.toks[node.first] = '{x_;'
-                n += 1
-    return src.text(), n
